@@ -90,11 +90,20 @@ impl RingState {
         // apply. The raw pointers in PendingApply::Read/Write die
         // here, so the consumer can free the buffer the moment the
         // cancel CQE is observed.
+        //
+        // Only real operations can be cancelled. An `ImmediateError` is a
+        // completion that has already been posted (the EINVAL of a
+        // rejected entry, the result of an earlier cancel): it stays as
+        // it is, and the cancel reports -ENOENT like for any other
+        // operation that is no longer in flight.
+        let is_target = |s: &ScheduledCqe| {
+            s.user_data == target_ud && !matches!(s.apply, PendingApply::ImmediateError(_))
+        };
         let mut found = false;
-        if let Some(idx) = self.inflight.iter().position(|s| s.user_data == target_ud) {
+        if let Some(idx) = self.inflight.iter().position(is_target) {
             self.inflight.swap_remove(idx);
             found = true;
-        } else if let Some(idx) = self.ready.iter().position(|s| s.user_data == target_ud) {
+        } else if let Some(idx) = self.ready.iter().position(is_target) {
             self.ready.remove(idx);
             found = true;
         }
